@@ -19,6 +19,9 @@ def nevra(rng, name=None, arch=None, epoch=None):
 
 def fmt(d, rng=None, decorate=True):
     s = "%s-%d:%s-%s.%s" % (d["name"], d["epoch"], d["version"], d["release"], d["arch"])
+    if rng is not None and decorate and rng.random() < 0.12:
+        # the same epoch, zero-padded ("00:", "01:", "015:"): the canonical key drops the padding
+        s = "%s-%s:%s-%s.%s" % (d["name"], pick(rng, ["%02d", "%03d"]) % d["epoch"], d["version"], d["release"], d["arch"])
     if rng is not None and decorate:
         if rng.random() < 0.25:
             s += ".rpm"
